@@ -841,6 +841,37 @@ async def s_pool_size_assign() -> List[str]:
         viol.append(f"limit 2 assigned on an idle pool: {idle.num_running} of 4 requested tasks run")
     idle.cancel_all()
     await ticks()
+    # a full pool: assigning 0 admits nothing however many requests follow (the free room must not become negative)
+    busy = TaskPool(pool_size=3)
+    pr3 = Probe(busy)
+    busy.apply(pr3.work, kwargs={"tag": "old", "gate": "old"}, num=3)
+    await ticks()
+    busy.pool_size = 0
+    busy.apply(pr3.work, kwargs={"tag": "new", "gate": "new"}, num=2)
+    await ticks()
+    if busy.num_running != 3 or "new" in pr3.started:
+        viol.append(f"limit 0 assigned on a full pool of 3: {busy.num_running} tasks run, started {pr3.started}")
+    busy.cancel_all()
+    await ticks()
+    # an assignment while a request waits for room does not strand it: once a running task ends the waiting one is admitted
+    for new_size in (1, 2, 5):
+        p4 = TaskPool(pool_size=1)
+        pr4 = Probe(p4)
+        p4.apply(pr4.work, kwargs={"tag": "first", "gate": "first"})
+        await ticks()
+        p4.apply(pr4.work, kwargs={"tag": "second", "gate": "second"})
+        await ticks()
+        p4.pool_size = 1 if new_size == 1 else new_size
+        pr4.gate("first").set()
+        await ticks(6)
+        if "second" not in pr4.started:
+            viol.append(f"pool_size 1 -> {new_size} while a request waited for room: the waiting task was never admitted after the running one ended")
+        pr4.gate("second").set()
+        await ticks(6)
+        try:
+            await asyncio.wait_for(p4.gather_and_close(), 1)
+        except asyncio.TimeoutError:
+            viol.append(f"pool_size 1 -> {new_size}: gather_and_close() hangs afterwards")
     return viol
 
 
@@ -1023,6 +1054,157 @@ async def s_control_session() -> List[str]:
     return viol
 
 
+async def s_pool_names() -> List[str]:
+    """several pools, one of them closed in between: unnamed pools keep distinct names, task names carry the pool's name and
+    the task id, ids are numbered per pool (C11)"""
+    from asyncio_taskpool import SimpleTaskPool, TaskPool
+
+    viol: List[str] = []
+
+    async def work():
+        await asyncio.sleep(0)
+
+    pools = [TaskPool(), TaskPool(pool_size=2), SimpleTaskPool(work)]
+    names = [str(p) for p in pools]
+    pools[0].apply(work, num=2)
+    await ticks()
+    await pools[0].gather_and_close()
+    later = [TaskPool(), TaskPool(), SimpleTaskPool(work)]
+    all_pools = pools + later
+    all_names = [str(p) for p in all_pools]
+    if [str(p) for p in pools] != names:
+        viol.append(f"the names of existing pools changed after one of them was closed: {names} -> {[str(p) for p in pools]}")
+    by_cls = {}
+    for p, n in zip(all_pools, all_names):
+        by_cls.setdefault(type(p).__name__, []).append(n)
+    for cls_, ns in by_cls.items():
+        if len(set(ns)) != len(ns):
+            viol.append(f"unnamed {cls_} instances share a name: {ns}")
+    for p in (pools[1], later[0]):
+        p.apply(work, num=2)
+    await ticks()
+    for p in (pools[1], later[0]):
+        ids = sorted(list(p._tasks_running) + list(p._tasks_ended))
+        if ids != [0, 1]:
+            viol.append(f"pool {p} numbered its first two tasks {ids}")
+        for i, t in list(p._tasks_running.items()) + list(p._tasks_ended.items()):
+            if t.get_name() != f"{p}_Task-{i}":
+                viol.append(f"task {i} of pool {p} is named {t.get_name()!r}")
+    for p in all_pools[1:]:
+        await p.gather_and_close()
+    return viol
+
+
+async def s_control_contracts() -> List[str]:
+    """run-time evaluation of the contracts of the small sequential functions of the control package on an enumerated input
+    domain (the classes of inputs the verifier's counter-models fall into): ControlParser.add_function_arg,
+    helpers.get_first_doc_line, the converter wrapper, _parse_command's tokenisation, the reply of _exec_*_and_respond
+    (C16, C17, C18).  Used to replay failed obligations of those units natively."""
+    import inspect
+    import io
+    from argparse import SUPPRESS, ArgumentTypeError
+    from unittest.mock import MagicMock
+
+    from asyncio_taskpool.control import parser as parser_mod
+    from asyncio_taskpool.control.parser import ControlParser
+    from asyncio_taskpool.control.session import ControlSession
+    from asyncio_taskpool.internals import helpers
+
+    viol: List[str] = []
+    P = inspect.Parameter
+    # ---- add_function_arg -------------------------------------------------------------------------------------
+    for name in ("value", "host", "h", "num_concurrent", "Host"):
+        for kind in (P.POSITIONAL_OR_KEYWORD, P.KEYWORD_ONLY, P.VAR_POSITIONAL):
+            for default in (P.empty, False, True, 5, None):
+                if kind == P.VAR_POSITIONAL and default is not P.empty:
+                    continue
+                for annotation in (bool, int, str):
+                    for taken in ((), (name[0],), (name[0], name[0].upper())):
+                        pr = ControlParser(stream=io.StringIO(), terminal_width=80, prog="x")
+                        pr._flags = set(taken)
+                        param = P(name, kind, default=default, annotation=annotation)
+                        where = f"add_function_arg({name!r}, kind={kind.name}, default={default!r}, annotation={annotation.__name__}, flags taken={taken})"
+                        try:
+                            action = pr.add_function_arg(param)
+                        except Exception as e:
+                            viol.append(f"{where} raised {type(e).__name__}: {e}")
+                            continue
+                        opts = list(action.option_strings)
+                        if default is P.empty:
+                            if opts or action.dest != name:
+                                viol.append(f"{where}: a parameter without default must become the positional {name!r}, got {opts or action.dest}")
+                        else:
+                            long = "--" + name.replace("_", "-")
+                            if not opts or opts[-1] != long:
+                                viol.append(f"{where}: long option should be {long}, got {opts}")
+                            if "-h" in opts:
+                                viol.append(f"{where}: uses the help flag -h")
+                            is_flag = type(action).__name__ == "_StoreTrueAction"
+                            if is_flag != (annotation is bool):
+                                viol.append(f"{where}: store_true flag = {is_flag} for annotation {annotation.__name__}")
+                            if not is_flag and action.default != default:
+                                viol.append(f"{where}: omitted option defaults to {action.default!r}, the method's default is {default!r}")
+                        if (kind == P.VAR_POSITIONAL) != (action.nargs == "*"):
+                            viol.append(f"{where}: nargs={action.nargs!r}")
+                        if type(action).__name__ != "_StoreTrueAction" and getattr(action.type, "__name__", None) != annotation.__name__:
+                            viol.append(f"{where}: converter {action.type!r} is not the one of the annotation")
+    # ---- get_first_doc_line --------------------------------------------------------------------------------------
+    def mk(doc):
+        def f():
+            pass
+
+        f.__doc__ = doc
+        return f
+
+    for doc in (None, "", " ", "\n", "One line.", "First.\n\nMore.", "   indented\n   more"):
+        try:
+            r = helpers.get_first_doc_line(mk(doc))
+        except Exception as e:
+            viol.append(f"get_first_doc_line of a member with docstring {doc!r} raised {type(e).__name__}: {e} (the command cannot be registered)")
+            continue
+        if (r is None) != (doc is None) or (r is not None and not isinstance(r, str)):
+            viol.append(f"get_first_doc_line({doc!r}) = {r!r}")
+    # ---- the converter wrapper: only the SUPPRESS sentinel object passes unconverted --------------------------------
+    w = parser_mod._get_arg_type_wrapper(int)
+    if w(SUPPRESS) is not SUPPRESS:
+        viol.append("the wrapper converted the SUPPRESS sentinel")
+    look_alike = "".join(["==SUPP", "RESS=="])  # an equal string that is a different object
+    for arg in (look_alike, "x"):
+        try:
+            r = w(arg)
+            viol.append(f"the wrapper let the client token {arg!r} through unconverted as {r!r}")
+        except (ArgumentTypeError, TypeError, ValueError):
+            pass
+        except Exception as e:
+            viol.append(f"the wrapper let {type(e).__name__} escape")
+    # ---- tokenisation and replies of a session --------------------------------------------------------------------------
+    from replay.dummy_pool import Echo as Pool
+
+    pool = Pool()
+    session = ControlSession(MagicMock(pool=pool, client_class_name="X"), MagicMock(), MagicMock())
+    session._parser = ControlParser(stream=session._response_buffer, terminal_width=80, prog="")
+    session._parser.add_subparsers(title="Commands")
+    session._parser.add_class_commands(Pool)
+
+    async def send(line):
+        await session._parse_command(line)
+        out = session._response_buffer.getvalue()
+        session._response_buffer.seek(0)
+        session._response_buffer.truncate()
+        return out
+
+    for line, want_words in (("echo a b", ("a", "b")), ("echo a\tb", ("a\tb",)), ("echo a\u00a0b c", ("a\u00a0b", "c")), ("echo a  b", ("a", "", "b"))):
+        pool.seen.clear()
+        rep = await send(line)
+        if pool.seen != [want_words]:
+            viol.append(f"the line {line!r} called echo with {pool.seen}, the pieces between single blanks are {want_words} (reply {rep[:40]!r})")
+    for line, want in (("nothing", "ok"), ("blank", ""), ("empty", "[]"), ("boom", ""), ("level", "0"), ("level 3", "ok"), ("level -1", "")):
+        rep = await send(line)
+        if rep != want:
+            viol.append(f"reply to {line!r} is {rep!r}; 'ok' stands for None only, otherwise str() of the result or exception: expected {want!r}")
+    return viol
+
+
 async def s_control_two_sessions() -> List[str]:
     """two sessions on the same pool class with the same terminal width, overlapping in time and interleaved line by line:
     every reply goes to the session that sent the line and equals what a lone session gets (C16, C18: "each reply contains
@@ -1145,6 +1327,8 @@ SCENARIOS: Dict[str, Callable] = {
     "queue": s_queue,
     "control_session": s_control_session,
     "control_two_sessions": s_control_two_sessions,
+    "control_contracts": s_control_contracts,
+    "pool_names": s_pool_names,
     "cancelled_flush": s_cancelled_flush,
     "double_cancel_turns": s_double_cancel_turns,
     "flush_with_cancelled_meta": s_flush_with_cancelled_meta,
@@ -1162,15 +1346,15 @@ BY_PROPERTY = {
     "C08": ["close", "lock_unlock"],
     "C09": ["lock_unlock"],
     "C10": ["group_cancel", "blocked_spawners"],
-    "C11": ["blocked_spawners", "lifecycle_mix"],
+    "C11": ["blocked_spawners", "lifecycle_mix", "pool_names"],
     "C12": ["exception_in_body_map", "lifecycle_mix", "lock_unlock"],
     "C13": ["slow_callbacks_flush", "flush_with_cancelled_meta"],
     "C14": ["stop_lifo"],
     "C15": ["lock_while_spawner_waits", "pool_size_assign", "blocked_spawners"],
     "C20": ["queue"],
-    "C16": ["control_session", "control_two_sessions"],
-    "C17": ["control_session", "control_two_sessions"],
-    "C18": ["control_session", "control_two_sessions"],
+    "C16": ["control_session", "control_two_sessions", "control_contracts"],
+    "C17": ["control_session", "control_two_sessions", "control_contracts"],
+    "C18": ["control_session", "control_two_sessions", "control_contracts"],
 }
 
 
@@ -1182,8 +1366,9 @@ def candidates(prop: str, obligation: str, path: str, all_failed) -> List[str]:
              ("_cancel_and_remove", "group_cancel"), ("_start_task", "blocked_spawners"), ("_task_wrapper", "lifecycle_mix"), ("_task_wrapper", "exception_in_body_map"),
              ("_task_wrapper", "slow_callbacks_flush"), ("cancel-callback", "cancel_semantics"), (".cancel#", "cancel_semantics"), ("stop", "stop_lifo"),
              ("lock", "lock_unlock"), ("_arg_consumer", "exception_in_body_map"), ("release_callback", "exception_in_body_map"), ("_apply_spawner", "blocked_spawners"),
-             ("_start_num", "stop_lifo"), ("queue_context", "queue"), ("pool_size", "lock_while_spawner_waits"), ("_generate_group_name", "group_cancel"),
-             ("apply", "blocked_spawners"), ("map", "exception_in_body_map")]
+             ("_start_num", "stop_lifo"), ("queue_context", "queue"), ("pool_size", "pool_size_assign"), ("G11", "pool_names"), ("_add_pool", "pool_names"), ("__str__", "pool_names"), ("pool_size", "lock_while_spawner_waits"), ("_generate_group_name", "group_cancel"),
+             ("apply", "blocked_spawners"), ("map", "exception_in_body_map"), ("add_function_arg", "control_contracts"), ("get_first_doc_line", "control_contracts"),
+             ("_get_arg_type_wrapper", "control_contracts"), ("_parse_command", "control_contracts"), ("_and_respond", "control_contracts"), ("return_or_exception", "control_session")]
     for key, sc in hints:
         if key in text and sc not in first:
             first.append(sc)
